@@ -664,7 +664,7 @@ class NetworkTopologyStrategy(ReplicationStrategy):
         """
         ret = "{'class': 'NetworkTopologyStrategy'"
         for dc, rf in sorted(self.dc_replication_factors_info.items()):
-            ret += ", '%s': '%s'" % (dc, str(rf))
+            ret += ", %s: '%s'" % (protect_value(str(dc)), str(rf))
         return ret + "}"
 
     def __eq__(self, other):
@@ -822,7 +822,7 @@ class KeyspaceMetadata(object):
             self.replication_strategy.export_for_schema())
         ret = ret + (' AND durable_writes = %s' % ("true" if self.durable_writes else "false"))
         if self.graph_engine is not None:
-            ret = ret + (" AND graph_engine = '%s'" % self.graph_engine)
+            ret = ret + (" AND graph_engine = %s" % protect_value(str(self.graph_engine)))
         return ret
 
     def user_type_strings(self):
@@ -1427,7 +1427,7 @@ class TableMetadata(object):
         value = options_copy.pop("compaction_strategy_class", None)
         actual_options.setdefault("class", value)
 
-        compaction_option_strings = ["'%s': '%s'" % (k, v) for k, v in actual_options.items()]
+        compaction_option_strings = ["%s: %s" % (protect_value(str(k)), protect_value(str(v))) for k, v in actual_options.items()]
         ret.append('compaction = {%s}' % ', '.join(compaction_option_strings))
 
         for system_table_name in cls.compaction_options.keys():
@@ -1436,7 +1436,7 @@ class TableMetadata(object):
 
         if not options_copy.get('compression'):
             params = json.loads(options_copy.pop('compression_parameters', '{}'))
-            param_strings = ["'%s': '%s'" % (k, v) for k, v in params.items()]
+            param_strings = ["%s: %s" % (protect_value(str(k)), protect_value(str(v))) for k, v in params.items()]
             ret.append('compression = {%s}' % ', '.join(param_strings))
 
         for name, value in options_copy.items():
@@ -1473,7 +1473,7 @@ class TableMetadataV3(TableMetadata):
             value = options_copy.get(option)
             if isinstance(value, Mapping):
                 del options_copy[option]
-                params = ("'%s': '%s'" % (k, v) for k, v in value.items())
+                params = ("%s: %s" % (protect_value(str(k)), protect_value(str(v))) for k, v in value.items())
                 ret.append("%s = {%s}" % (option, ', '.join(params)))
 
         for name, value in options_copy.items():
@@ -1683,12 +1683,12 @@ class IndexMetadata(object):
                 index_target)
         else:
             class_name = options.pop("class_name")
-            ret = "CREATE CUSTOM INDEX %s ON %s.%s (%s) USING '%s'" % (
+            ret = "CREATE CUSTOM INDEX %s ON %s.%s (%s) USING %s" % (
                 protect_name(self.name),
                 protect_name(self.keyspace_name),
                 protect_name(self.table_name),
                 index_target,
-                class_name)
+                protect_value(str(class_name)))
             if options:
                 # PYTHON-1008: `ret` will always be a unicode
                 opts_cql_encoded = _encoder.cql_encode_all_types(options, as_text_type=True)
